@@ -6,6 +6,8 @@ package cache
 // harness function is its own replay.
 
 import (
+	"github.com/cespare/xxhash/v2"
+
 	"encoding/json"
 	"fmt"
 	"os"
@@ -23,6 +25,9 @@ var (
 	// verifMemStatsFn supplies runtime.MemStats.HeapInuse and .Sys to the soft-limit checks
 	verifMemStatsFn func() (heapInuse, sys uint64)
 )
+
+// hash values of an uninterpreted-hash model, installed for the native replay
+var verifReplayHashes map[string]uint64
 
 type verifReplayState struct {
 	mu       sync.Mutex
@@ -57,12 +62,23 @@ func (r *verifReplayState) load() {
 			panic(err)
 		}
 		var doc struct {
-			Model map[string]string `json:"model"`
+			Model  map[string]string `json:"model"`
+			Hashes [][2]string       `json:"hashes"`
 		}
 		if err := json.Unmarshal(b, &doc); err != nil {
 			panic(err)
 		}
 		r.vals = doc.Model
+		verifReplayHashes = map[string]uint64{}
+		for _, h := range doc.Hashes {
+			key := make([]byte, len(h[0])/2)
+			for i := range key {
+				x, _ := strconv.ParseUint(h[0][2*i:2*i+2], 16, 8)
+				key[i] = byte(x)
+			}
+			v, _ := strconv.ParseUint(h[1], 10, 64)
+			verifReplayHashes[string(key)] = v
+		}
 	}
 }
 
@@ -175,6 +191,9 @@ func verifAssert(label string, c bool) {
 		verifRS.mu.Lock()
 		verifRS.Failed = append(verifRS.Failed, label)
 		verifRS.mu.Unlock()
+		if os.Getenv("VERIF_REPLAY") != "" {
+			fmt.Printf("REPLAY-ASSERT-FAILED: %s\n", label) // printed at once: the order against a failing assumption matters
+		}
 	}
 }
 
@@ -227,7 +246,7 @@ func verifRealAdd(a, b float64) float64 { return a + b }
 func verifRealSub(a, b float64) float64 { return a - b }
 func verifRealMul(a, b float64) float64 { return a * b }
 func verifRealDiv(a, b float64) float64 { return a / b }
-func verifFloatIdeal() {}
+func verifFloatIdeal()                  {}
 
 // ---- concurrency harnesses (L2) -------------------------------------------------------
 
@@ -276,3 +295,16 @@ func verifAtomic(f func()) {
 
 // verifSched marks a scheduling point of harness code (used to steer native replays).
 func verifSched(label string) {}
+
+// verifHash is the hash function harnesses use for their own bookkeeping: the real xxhash64
+// natively (or the value the solver's model gave the uninterpreted hash, during a replay), the
+// same (possibly uninterpreted) function as xxhash.Sum64 under the executor.
+func verifHash(b []byte) uint64 {
+	verifRS.mu.Lock()
+	verifRS.load()
+	verifRS.mu.Unlock()
+	if h, ok := verifReplayHashes[string(b)]; ok {
+		return h
+	}
+	return xxhash.Sum64(b)
+}
